@@ -299,6 +299,7 @@ def run(ck):
     ck.floor("TAB", "numeric instructions compared with the specification", nn, 64)
 
     memory_rules(ck, c, rc, rtab)
+    control_rules(ck, c, rc, rtab)
 
 
 # memory instructions (WebAssembly 1.0, 4.4.4): N bits are read at ea = base (u32) + offset (u32) as a 33-bit sum, trap if
@@ -470,3 +471,113 @@ def memory_rules(ck, c, rc, rtab):
         ck.ob("TAB", "interpreter:" + n, "store-field-width", ok, "writes the low %s bytes (little endian) of the %s view; specification: %d bytes of %s" %
               (got, sorted(fields), width, field), rc.loc(tb))
     ck.floor("TAB", "memory instruction obligations", nm, 29)
+
+
+def control_rules(ck, c, rc, rtab):
+    """interpreter arms of the control, parametric and accounting instructions: which branch is taken under which condition"""
+    def arm(n):
+        if not ck.anchor(n in rtab, "TAB", "control:" + n, "interpreter arm exists"):
+            return None
+        return rtab[n][1], rtab[n][2]
+
+    def cmps(conds):
+        return [(k[4:], v, nn) for (k, nn, v) in conds if k.startswith("cmp:")]
+
+    def truth_of(conds, want_names):
+        """normalised: is the site reached when (value == 0)?  returns True / False / None"""
+        for (op, v, nn) in cmps(conds):
+            if want_names <= nn and "lit0" in nn:
+                if op == "Eq":
+                    return v
+                if op == "Ne":
+                    return not v
+        return None
+
+    JUMP = r"ptr::const_ptr::<impl \*const T>::add$"
+    nn_ = 0
+    for n, zero_jumps in (("If", True), ("BrIf", False)):
+        a = arm(n)
+        if not a:
+            continue
+        reg, tb = a
+        jumps = [(bi, t) for (bi, t) in rc.calls(JUMP) if bi in reg and has_call_origin(rc.origins(t["args"][0]), r"as_ptr$")]
+        ok = len(jumps) == 1 and truth_of(conditions_at(rc, jumps[0][0]), {"short"}) is zero_jumps and has_call_origin(rc.origins(jumps[0][1]["args"][1], deep=True), r"machine::get_u32$")
+        nn_ += 1
+        ck.ob("TAB", "interpreter:" + n, "jump-condition", ok,
+              "jumps to the encoded target exactly when the condition operand is %s zero" % ("" if zero_jumps else "not"), rc.loc(tb))
+    for n, stride in (("BrTable", 4), ("BrTableCarry", 8)):
+        a = arm(n)
+        if not a:
+            continue
+        reg, tb = a
+        def from_start(t):
+            return any(x[0] == "call" and x[1].endswith("as_ptr") and x[2] in reg for x in rc.origins(t["args"][0]))
+        skips = [(bi, t) for (bi, t) in rc.calls(JUMP) if bi in reg and not from_start(t)]
+        finals = [(bi, t) for (bi, t) in rc.calls(JUMP) if bi in reg and from_start(t)]
+        ok = len(skips) == 1 and len(finals) == 1
+        det = "%d skips, %d final jumps" % (len(skips), len(finals))
+        if ok:
+            cs = cmps(conditions_at(rc, skips[0][0]))
+            lt = [x for x in cs if x[0] == "Lt" and x[1] is True and "get_u16" in x[2] and "short" in x[2]]
+            o = rc.origins(skips[0][1]["args"][1], deep=True)
+            unsigned = ("cast", "u32") in rc.origins(rc.term(skips[0][0])["args"][1], deep=True)
+            ok = len(lt) == 1 and ("lit", stride) in o and ("lit", 1) in o and any(x[0] == "bin" and x[1].startswith("Mul") for x in o) and unsigned \
+                and not conditions_at(rc, finals[0][0]) == [] or (len(lt) == 1 and ("lit", stride) in o and ("lit", 1) in o and unsigned)
+            det = "index < number of labels (unsigned) selects entry (index + 1) * %d bytes further; otherwise the first (default) entry; found comparisons %s" % (stride, [(x[0], x[1]) for x in cs])
+        nn_ += 1
+        ck.ob("TAB", "interpreter:" + n, "table-selection", ok, det, rc.loc(tb))
+    a = arm("Select")
+    if a:
+        reg, tb = a
+        gl = sorted(bi for (bi, t) in rc.calls(r"machine::get_local$") if bi in reg)
+        order = [b for b in rpo(rc) if b in gl]
+        stores = []
+        for b in sorted(reg):
+            for s in rc.stmts(b):
+                if s.get("lhs") and s["lhs"][1] == ["*"] and s["rv"].get("k") == "use":
+                    src = [x[2] for x in rc.origins(s["rv"]["a"]) if x[0] == "call" and x[1].endswith("machine::get_local")]
+                    stores.append((truth_of(conditions_at(rc, b), {"short"}), order.index(src[0]) if len(src) == 1 and src[0] in order else None))
+        ok = len(order) == 3 and sorted(stores, key=str) == sorted([(True, 1), (False, 2)], key=str)
+        nn_ += 1
+        ck.ob("TAB", "interpreter:Select", "operand-choice", ok,
+              "operands are read as (condition, second, first); condition == 0 selects the second, otherwise the first: %s" % stores, rc.loc(tb))
+    a = arm("TickEnergy")
+    if a:
+        reg, tb = a
+        sites = [(bi, t) for (bi, t) in rc.calls(r"Host::tick_energy$|Host<.*>::tick_energy$") if bi in reg]
+        ok = len(sites) == 1 and rules.enforced_ok(rules.enforcement(rc, sites[0][0])) and has_call_origin(rc.origins(sites[0][1]["args"][1], deep=True), r"machine::get_u32$")
+        nn_ += 1
+        ck.ob("ENF", "interpreter:TickEnergy", "charge-enforced", ok, "the encoded amount is charged and running out of energy ends execution", rc.loc(tb))
+    for n in ("Call", "CallIndirect"):
+        a = arm(n)
+        if not a:
+            continue
+        reg, tb = a
+        tc = [(bi, t) for (bi, t) in rc.calls(r"Host::track_call$|Host<.*>::track_call$") if bi in reg]
+        hc = [(bi, t) for (bi, t) in rc.calls(r"Host::call$|Host<.*>::call$") if bi in reg]
+        ok = len(tc) == 1 and len(hc) == 1 and all(rules.enforced_ok(rules.enforcement(rc, bi)) for (bi, _) in tc + hc)
+        pushes = [(bi, t) for (bi, t) in rc.calls(r"Vec::<T, A>::push$") if bi in reg and "FunctionState" in (t["f"].get("self") or "") + " ".join(t["f"].get("gargs") or []) + rc.locals[op_place(t["args"][1])[0]] if op_place(t["args"][1])]
+        ok = ok and len(pushes) == 1 and rc.dominates(tc[0][0], pushes[0][0])
+        nn_ += 1
+        ck.ob("ENF", "interpreter:" + n, "call-depth-and-host-call-enforced", ok,
+              "a call to a local function first passes track_call (enforced) and then pushes the caller's frame; the result of a host call is enforced", rc.loc(tb))
+    a = arm("CallIndirect")
+    if a:
+        reg, tb = a
+        rr = rc.reject_region()
+        # blocks that build the 'type mismatch' error: reached only when every type test failed
+        errs = []
+        for b in sorted(reg):
+            t = rc.term(b)
+            if t["k"] == "call" and any(op_const(x) is not None and "Actual type different" in str(op_const(x).get("str", "")) for x in t["args"]):
+                errs.append(b)
+        res = []
+        for b in errs:
+            cs = conditions_at(rc, b)
+            eqs = [("equal", v if k == "cmp:Eq" else (not v)) for (k, nn, v) in cs if k in ("cmp:Eq", "cmp:Ne")]
+            res.append(eqs)
+        ok = len(errs) == 2 and all(r and all(v is False for (_, v) in r) for r in res) and sorted(len(r) for r in res) == [1, 2]
+        nn_ += 1
+        ck.ob("CMP", "interpreter:CallIndirect", "type-test-enforced", ok,
+              "the dynamic type test traps exactly when the expected type differs (imported: one equality; local: same index or structurally equal): %s" % res, rc.loc(tb))
+    ck.floor("TAB", "control/accounting arm obligations", nn_, 9)
